@@ -3,6 +3,7 @@ package c09
 import (
 	"context"
 	"fmt"
+	"os"
 	goruntime "runtime"
 	"strings"
 	"sync"
@@ -93,12 +94,17 @@ func runFetchCase(c FetchCase) *vt.Outcome {
 		wg.Add(1)
 		go fetch(i)
 	}
-	// wait until every other caller has reached the per-object lock
+	// wait until another caller has reached the per-object lock
 	for spins := 0; ; spins++ {
-		if n, _ := goroutinesIn("vcache.(*Cache).lock"); n >= c.Fetchers-1 {
+		// (one caller can be inside Cache.lock at a time: it keeps Cache.mu while it waits, the others queue on Cache.mu)
+		if _, blocked := goroutinesIn("vcache.(*Cache).lock"); blocked >= 1 {
 			break
 		}
-		if spins > 20000 {
+		if spins > 2000 {
+			if os.Getenv("C09_DEBUG") != "" {
+				buf := make([]byte, 1<<20)
+				fmt.Println(string(buf[:goruntime.Stack(buf, true)]))
+			}
 			o.Skip = "callers did not reach Cache.lock"
 			close(g.release)
 			return o
@@ -120,9 +126,9 @@ func runFetchCase(c FetchCase) *vt.Outcome {
 			}
 			return o
 		}
-		_, inFetch := goroutinesIn("vcache.(*Cache).Fetch")
-		_, inLock := goroutinesIn("vcache.(*Cache).lock")
-		if inFetch >= 1 && inLock >= 1 && inFetch+0 >= c.Fetchers-int(done.Load()) {
+		remaining := c.Fetchers - int(done.Load())
+		_, blocked := goroutinesIn("vcache.(*Cache).Fetch")
+		if remaining > 0 && blocked == remaining {
 			stuck++
 		} else {
 			stuck = 0
